@@ -249,6 +249,16 @@ func (m *Machine) intrinsic(fn *ssa.Function, args []Val, caller *frame) handler
 			}
 			return mkStr(m.outputs[i].Sink + "|" + m.outputs[i].Text)
 		}
+	case "vSecret":
+		return func() Val { return nil }
+	case "vSharedWriteText":
+		return func() Val {
+			i := argInt(args[0])
+			if i < len(m.sharedWrites) {
+				return mkStr(m.sharedWrites[i])
+			}
+			return mkStr("")
+		}
 	case "vTainted":
 		return func() Val { return Bool(valTainted(args[0], 0)) }
 	case "vKnown":
@@ -339,6 +349,9 @@ func (m *Machine) assert(c *Term, msg string) {
 		f.Valid = m.validate(model, neg)
 		if m.uncaught != nil {
 			f.Detail = "last Go panic seen: " + m.uncaught.msg
+		}
+		if len(m.sharedWrites) > 0 {
+			f.Detail += " first write to shared memory: " + m.sharedWrites[0]
 		}
 		f.Replay = m.buildReplay(model, msg)
 		if len(m.knownKeys) > 0 {
